@@ -54,17 +54,12 @@ theorem C01_full_at_capacity (base : Nat) (h : History) (hn : h.NoSetSize)
   subst this
   simp [Pool.isFull, Sem.locked, hv, Cap.isZero]
 
-/-- **C01 (`is_full`, both directions).** In every pool of finite size after every history without an assignment to
-`pool_size` and without `gather_and_close`: at any point where no task sits in its cancel callback
-(`num_cancelled = 0`) and no spawner has been handed a slot it has not picked up yet (true whenever the loop is idle:
-the hand-over schedules the spawner), `is_full` is true **exactly when** `num_running` equals the pool size. The
-direction "not at capacity ⇒ not full" rests on the semaphore's no-lost-wake-up invariant (`WakeOK`, DESIGN §4.3). -/
-theorem C01_is_full_iff (base : Nat) (h : History) (hn : h.NoSetSize) (hg : ∀ x ∈ h, x.admits noGac = true)
+/-- the argument of `C01_is_full_iff`, for any state in which no task was lost -/
+theorem C01_is_full_iff_core (base : Nat) (h : History) (hn : h.NoSetSize)
     (i : Nat) (c : Cfg) (p : Pool) (n : Nat)
     (hc : ((World.init base).run h).cfgs[i]? = some c) (hp : ((World.init base).run h).pools[i]? = some p)
-    (hsz : c.size0 = .fin n) (hcb : p.cancelledR = []) (hgr : grantsL p.sem.waiters = 0) :
+    (hsz : c.size0 = .fin n) (hcb : p.cancelledR = []) (hgr : grantsL p.sem.waiters = 0) (hl : p.lost = false) :
     p.isFull = true ↔ p.running.length = n := by
-  have hl : p.lost = false := (strictAll base h hg i c p hc hp).1
   refine ⟨?_, C01_full_at_capacity base h hn i c p n hc hp hsz hl⟩
   intro hfull
   obtain ⟨v, hv, hs⟩ := C02_idle_accounting base h hn i c p n hc hp hsz hl
@@ -94,6 +89,18 @@ theorem C01_is_full_iff (base : Nat) (h : History) (hn : h.NoSetSize) (hg : ∀ 
       | zero => exact absurd rfl hz
       | succ k => rfl
     rw [this] at hfull; cases hfull
+
+/-- **C01 (`is_full`, both directions).** In every pool of finite size after every history without an assignment to
+`pool_size` and without `gather_and_close`: at any point where no task sits in its cancel callback
+(`num_cancelled = 0`) and no spawner has been handed a slot it has not picked up yet (true whenever the loop is idle:
+the hand-over schedules the spawner), `is_full` is true **exactly when** `num_running` equals the pool size. The
+direction "not at capacity ⇒ not full" rests on the semaphore's no-lost-wake-up invariant (`WakeOK`, DESIGN §4.3). -/
+theorem C01_is_full_iff (base : Nat) (h : History) (hn : h.NoSetSize) (hg : ∀ x ∈ h, x.admits noGac = true)
+    (i : Nat) (c : Cfg) (p : Pool) (n : Nat)
+    (hc : ((World.init base).run h).cfgs[i]? = some c) (hp : ((World.init base).run h).pools[i]? = some p)
+    (hsz : c.size0 = .fin n) (hcb : p.cancelledR = []) (hgr : grantsL p.sem.waiters = 0) :
+    p.isFull = true ↔ p.running.length = n :=
+  C01_is_full_iff_core base h hn i c p n hc hp hsz hcb hgr (strictAll base h hg i c p hc hp).1
 
 /-- size 0: nothing may ever start -/
 theorem C01_zero_starts_nothing (base : Nat) (h : History) (hn : h.NoSetSize) (i : Nat) (c : Cfg) (p : Pool)
